@@ -79,7 +79,10 @@ def rule_find_links(a, b, ds, u, f):
 
 
 def query_lines(p, rng, n_filters=2, dirs=(0, 1, 2, 3), unks=(0, 1, 2, 3), flinks=False):
-    masks = ["-"] + [str(rng.getrandbits(64)) for _ in range(n_filters)] + ["0", str(2 ** 64 - 1)]
+    def short():        # k % 5 == 2 : the adapter passes a NEW callable object for each call
+        r = rng.getrandbits(63)
+        return str(r - r % 5 + 2)
+    masks = ["-"] + [str(rng.getrandbits(64)) for _ in range(n_filters)] + ["0", str(2 ** 64 - 1), short(), short(), short()]
     out = []
     for v in p.verts():
         if not flinks:
@@ -312,6 +315,10 @@ class C05(Check):
         for v in p.verts():
             for d, u, m in AUDIT_KEYS:
                 lines.append("nbrs %s %d %d %s" % (v, d, u, "-" if m == "-" else mask))
+            # two different SHORT-LIVED filter objects (k % 5 == 2) under the same other arguments, back to back
+            a, b = rng.getrandbits(62), rng.getrandbits(62)
+            lines.append("nbrs %s 1 1 %d" % (v, a - a % 5 + 2))
+            lines.append("nbrs %s 1 1 %d" % (v, b - b % 5 + 2))
         return lines
 
     def history(self, rng, real, length, fresh_at=None):
@@ -425,14 +432,27 @@ class C05(Check):
             "for l in L: r.reg_l(l)\n"
             "for w in W: r.reg_w(w)\n"
             "Vertex.NEIGHBOR_CACHING = True\n"
-            "for q in sys.stdin.buffer.read().decode().split('\\n'):\n"
-            "    if q: print(r.step(q)); print(r.step(q))\n"
+            "qs = [q for q in sys.stdin.buffer.read().decode().split('\\n') if q]\n"
+            "for q in qs: print(r.step(q)); print(r.step(q))\n"
+            "# mutate the loaded graph here, then every answer must still equal a recomputation\n"
+            "muts = ['edge D V0 V%%d' %% (len(V) - 1), 'setv2 L0 V0', 'unlink V0 V%%d destroy' %% (len(V) - 1), 'edge U V0 V0']\n"
+            "for m in muts:\n"
+            "    r.step(m)\n"
+            "    for q in qs:\n"
+            "        a = r.step(q)\n"
+            "        Vertex.NEIGHBOR_CACHING = False\n"
+            "        b = r.step(q)\n"
+            "        Vertex.NEIGHBOR_CACHING = True\n"
+            "        if a != b: print('STALE after %%s: %%s answered %%s, recomputed %%s' %% (m, q, a, b))\n"
         ) % (os.environ.get("EG_REPO", "/repo"), HERE)
         inp = str(len(data)).encode() + b"\n" + data + "\n".join(qs).encode()
         pr = subprocess.run([sys.executable, "-c", code], input=inp, stdout=subprocess.PIPE,
                             stderr=subprocess.PIPE, check=False)
         got = pr.stdout.decode().split("\n")
         self.fresh_runs = getattr(self, "fresh_runs", 0) + 1
+        stale = [g for g in got if g.startswith("STALE")]
+        if stale:
+            return Violation("oracle", "in a fresh interpreter (caching on) after un-pickling: " + stale[0], lines + ["fresh"])
         for i, q in enumerate(qs):
             for rep in (0, 1):
                 g = got[2 * i + rep] if 2 * i + rep < len(got) else "<no answer: %s>" % pr.stderr.decode()[-300:]
